@@ -11,7 +11,8 @@ Signals of one stream boundary in one clock cycle:
 
 A stage computes, from its register state and the signals of the current cycle,
 * `fwd`  : its output `valid`/payload from its input `valid`/payload   (no stage has a path ready → valid),
-* `bwd`  : its input `ready` from its output `ready`                   (no stage has a path valid → ready),
+* `bwd`  : its input `ready` from its output `ready` (and, for the packet width changers of Packet.h only, from the input
+  signals of the cycle: their `ready(source)` looks at `eop(source)`),
 * `next` : the register state after the clock edge.
 `ctl` is the vector of side inputs of the cycle (the `stallCondition` bits of `strm::stall`); a stage consumes
 `nctl` of them, `comp` hands the rest to the following stage.
@@ -40,7 +41,7 @@ structure Stage (α β : Type) where
   nctl : Nat
   init : σ
   fwd : σ → Ctl → Fwd α → Fwd β
-  bwd : σ → Ctl → Bool → Bool
+  bwd : σ → Ctl → Fwd α → Bool → Bool
   next : σ → Ctl → Fwd α → Bool → σ
 
 /-- a valid bit register plus a payload register (`valid_reg`/`dsSig`, `valid_reg`/`data_reg`) -/
@@ -57,7 +58,7 @@ def regDownstreamBlocking {α} (d0 : α) : Stage α α where
   nctl := 0
   init := ⟨false, d0⟩
   fwd s _ _ := ⟨s.v, s.d⟩
-  bwd _ _ r := r
+  bwd _ _ _ r := r
   next s _ x r := if r then ⟨x.valid, x.data⟩ else s
 
 /-- `regDownstream` (utils.h:476-508), branch `has<Ready>()`:
@@ -67,7 +68,7 @@ def regDownstream {α} (d0 : α) : Stage α α where
   nctl := 0
   init := ⟨false, d0⟩
   fwd s _ _ := ⟨s.v, s.d⟩
-  bwd s _ r := r || !s.v
+  bwd s _ _ r := r || !s.v
   next s _ x r := if r || !s.v then ⟨x.valid, x.data⟩ else s
 
 /-- `regReady` — the skid buffer (utils.h:435-474).
@@ -85,7 +86,7 @@ def regReady {α} (d0 : α) : Stage α α where
   nctl := 0
   init := ⟨false, d0⟩
   fwd s _ x := if s.v then ⟨true, s.d⟩ else x
-  bwd s _ _ := !s.v
+  bwd s _ _ _ := !s.v
   next s _ x r :=
     let v1 := if r then false else s.v
     let v2 := if !v1 then (if !r then x.valid else v1) else v1
@@ -98,7 +99,7 @@ def stall {α} : Stage α α where
   nctl := 1
   init := ()
   fwd _ c x := ⟨x.valid && !c 0, x.data⟩
-  bwd _ c r := r && !c 0
+  bwd _ c _ r := r && !c 0
   next _ _ _ _ := ()
 
 /-- a plain connection (`delay` with `cycles = 0`, utils.h:515-516) -/
@@ -107,7 +108,7 @@ def wire {α} : Stage α α where
   nctl := 0
   init := ()
   fwd _ _ x := x
-  bwd _ _ r := r
+  bwd _ _ _ r := r
   next _ _ _ _ := ()
 
 /-- composition `A | B`: the forward signals of `A` feed `B`, `B`'s input ready is `A`'s output ready. -/
@@ -116,8 +117,8 @@ def comp {α β γ} (A : Stage α β) (B : Stage β γ) : Stage α γ where
   nctl := A.nctl + B.nctl
   init := (A.init, B.init)
   fwd s c x := B.fwd s.2 (c.shift A.nctl) (A.fwd s.1 c x)
-  bwd s c r := A.bwd s.1 c (B.bwd s.2 (c.shift A.nctl) r)
-  next s c x r := (A.next s.1 c x (B.bwd s.2 (c.shift A.nctl) r), B.next s.2 (c.shift A.nctl) (A.fwd s.1 c x) r)
+  bwd s c x r := A.bwd s.1 c x (B.bwd s.2 (c.shift A.nctl) (A.fwd s.1 c x) r)
+  next s c x r := (A.next s.1 c x (B.bwd s.2 (c.shift A.nctl) (A.fwd s.1 c x) r), B.next s.2 (c.shift A.nctl) (A.fwd s.1 c x) r)
 
 /-- `regDecouple` (utils.h:747-752): `regReady(regDownstreamBlocking(stream))` -/
 def regDecouple {α} (d0 : α) : Stage α α := comp (regDownstreamBlocking d0) (regReady d0)
@@ -163,7 +164,7 @@ def fifo {α} (d0 : α) (depth lat : Nat) (ft : Bool) : Stage α α where
   nctl := 0
   init := ⟨[], List.replicate (lat - 1) false, List.replicate (lat - 1) false, false, true⟩
   fwd s _ x := if ft && s.emptyR then x else ⟨!s.emptyR, s.q.headD d0⟩
-  bwd s _ _ := !s.fullR
+  bwd s _ _ _ := !s.fullR
   next s _ x r :=
     let vout := if ft && s.emptyR then x.valid else !s.emptyR
     let vin := x.valid && !(ft && s.emptyR && r)
@@ -195,7 +196,7 @@ structure ExtS (δ : Type) where
   nctl := 0
   init := ⟨0, List.replicate ratio d0⟩
   fwd s _ x := ⟨(s.cnt + 1 == ratio) && x.valid, mk (s.slots.drop 1 ++ [dataOf x.data]) x.data⟩
-  bwd s _ r := r || !(s.cnt + 1 == ratio)
+  bwd s _ _ r := r || !(s.cnt + 1 == ratio)
   next s _ x r :=
     let last := s.cnt + 1 == ratio
     let t := x.valid && (r || !last)
@@ -211,11 +212,63 @@ structure ExtS (δ : Type) where
   nctl := 0
   init := 0
   fwd s _ x := ⟨x.valid, slice s x.data⟩
-  bwd s _ r := r && (s + 1 == ratio)
+  bwd s _ _ r := r && (s + 1 == ratio)
   next s _ x r :=
     if !x.valid then 0
     else if r then (if s + 1 == ratio then 0 else s + 1)
     else s
+
+/-! ### packet-aware width changers (Packet.h:517-795) -/
+
+/-- `widthReduce` (Packet.h:762-795) with its per-meta-signal handlers `reduceStreamMeta` (Packet.h:660-760).
+    `Counter counter{ratio}; IF(transfer(ret)) counter.inc(); IF(transfer(ret) & transfer(source)) counter.reset();`
+    `ready(source) = '0'; IF(beat.isLast() | outEop) ready(source) = ready(out)` (Packet.h:660-667) — the input ready
+    depends on the input payload through `outEop`; `valid` passes (Packet.h:669-672).
+    `slice i x` = output beat for part `i` of `x` (payload part, byte-enable group, `sop & isFirst`, `eop & isLastBeat`,
+    empty…), `fin i x` = `beat.isLast() | outEop`.  Unlike `reduceWidth` of utils.h the counter is not reset while valid is low.
+    The auxiliary registers of the meta handlers (`sentBits`, `bytesLeft`, `bitsLeft`) are functions of the counter
+    (`(cnt+1)·bitsOut`, `bytesIn − cnt·bytesOut`, …) and are folded into `slice` in closed form. -/
+@[reducible] def widthReduceP {α β} (slice : Nat → α → β) (fin : Nat → α → Bool) : Stage α β where
+  σ := Nat
+  nctl := 0
+  init := 0
+  fwd s _ x := ⟨x.valid, slice s x.data⟩
+  bwd s _ x r := r && fin s x.data
+  next s _ x r := if x.valid && r then (if fin s x.data then 0 else s + 1) else s
+
+structure PExtS (δ : Type) where
+  cnt : Nat
+  slots : List δ
+  sopF : Bool
+  empR : Nat
+  deriving Repr
+
+/-- `widthExtend` (Packet.h:629-657) with `extendStreamMeta` / `extendStreamPayload` (Packet.h:525-627).
+    * counter: `IF(transfer(source)) inc; IF(transfer(source) & eop(source)) reset`;
+    * `ready(source) = '1'; IF(beat.isLast() | eop(source)) ready(source) = ready(out)`; `valid(out) = valid & (isLast | eop)`;
+    * payload and byte enables: `ret = reg(ret); retParts[beat.value()] = in` — a register that is rewritten *every* cycle with
+      its own value except part `cnt`, which takes the current input (`slots.set cnt …`); parts above `cnt` keep whatever
+      earlier groups left there;
+    * sop: `flagInstantSet(in.sop, isLast | eop(inStream))` — `flag' = (flag | sop) & !(isLast | eop)` in every cycle, whether or
+      not anything is valid or transferred (Packet.h:566-569, flag.h:59-66);
+    * empty / emptyBits: register `e` (enabled by `transfer(source)`): `e' = (isLast | eop) ? start : e − step`, output `e + in.empty`
+      (modulo `emod` = 2^width);  error, txid, eop: from the current beat. -/
+@[reducible] def widthExtendP {α β δ} (ratio : Nat) (d0 : δ) (slotOf : α → δ) (isEop isSop : α → Bool) (empOf : α → Nat)
+    (start step emod : Nat) (mk : List δ → Bool → Nat → α → β) : Stage α β where
+  σ := PExtS δ
+  nctl := 0
+  init := ⟨0, List.replicate ratio d0, false, start⟩
+  fwd s _ x :=
+    let fin := (s.cnt + 1 == ratio) || isEop x.data
+    ⟨x.valid && fin, mk (s.slots.set s.cnt (slotOf x.data)) (s.sopF || isSop x.data) ((s.empR + empOf x.data) % emod) x.data⟩
+  bwd s _ x r := if (s.cnt + 1 == ratio) || isEop x.data then r else true
+  next s _ x r :=
+    let fin := (s.cnt + 1 == ratio) || isEop x.data
+    let t := x.valid && (if fin then r else true)
+    ⟨if t then (if fin then 0 else s.cnt + 1) else s.cnt,
+     s.slots.set s.cnt (slotOf x.data),
+     (s.sopF || isSop x.data) && !fin,
+     if t then (if fin then start else (s.empR + emod - step % emod) % emod) else s.empR⟩
 
 /-! ### finite chains -/
 
@@ -231,16 +284,18 @@ def Chain.toStage : {α β : Type} → Chain α β → Stage α β
 
 /-- payload of one beat: data word and the meta signals of `metaSignals.h`. `eop`/`sop` and the byte enables `be` are
     separate because the width changers rewrite them; all other meta signals (error, txid, empty) are carried as one opaque
-    word. Streams without `ByteEnable` have `be = 0` (width 0). -/
+    word, except `emp` = the `Empty` (bytes) or `EmptyBits` field, which the packet width changers recompute.
+    Streams without `ByteEnable` have `be = 0` (width 0), streams without `Empty`/`EmptyBits` have `emp = 0`. -/
 structure Beat where
   data : Nat
   eop : Bool
   sop : Bool
   aux : Nat
   be : Nat
+  emp : Nat
   deriving Repr, BEq, DecidableEq, Inhabited
 
-def Beat.zero : Beat := ⟨0, false, false, 0, 0⟩
+def Beat.zero : Beat := ⟨0, false, false, 0, 0, 0⟩
 
 /-- little-endian concatenation of `w`-bit words: first word in the low bits (`makeShiftReg` shifts right, so the oldest
     word ends up lowest) -/
@@ -265,6 +320,33 @@ def extMk (w bw : Nat) (slots : List (Nat × Nat)) (x : Beat) : Beat :=
 def redSlice (ratio w bw : Nat) (i : Nat) (x : Beat) : Beat :=
   { x with data := partWord w i x.data, be := partWord bw i x.be, eop := x.eop && (i + 1 == ratio), sop := x.sop && (i == 0) }
 
+/-- `BitWidth::last(v)` = number of bits needed for the value `v`; `BitWidth::count(n)` = bits needed to count `n` states -/
+def bitLen (v : Nat) : Nat := if v = 0 then 0 else Nat.log2 v + 1
+def bitCount (n : Nat) : Nat := if n ≤ 1 then 0 else bitLen (n - 1)
+
+/-- empty-signal flavour of a stream: 0 none, 1 `Empty` (bytes), 2 `EmptyBits` -/
+def emptyUnit (ek w : Nat) : Nat := if ek = 1 then w / 8 else if ek = 2 then w else 0
+
+/-- `widthReduce` on concrete beats (`w`/`bw` = output data / byte-enable width, `ek` = empty flavour):
+    part `i` (Packet.h:675-690), `sop & isFirst` (710-713), `eop & (sentBits >= bitsIn − emptyBits)` with
+    `sentBits = (i+1)·w` (692-708), `empty = (bytesLeft − empty).lower(count(bytesOut))` with `bytesLeft = bytesIn − i·bytesOut`
+    (715-727; 739-752 the same in bits for `EmptyBits`) -/
+def pRedSlice (ratio w bw ek : Nat) (i : Nat) (x : Beat) : Beat :=
+  let bitsIn := ratio * w
+  let emptyBitsIn := if ek = 1 then x.emp * 8 else if ek = 2 then x.emp else 0
+  let lastBeat := decide ((i + 1) * w ≥ bitsIn - emptyBitsIn)
+  let uOut := emptyUnit ek w
+  let emp := if ek = 0 then x.emp else (ratio * uOut - i * uOut + 2 ^ 64 - x.emp % 2 ^ 64) % 2 ^ bitCount uOut
+  { x with data := partWord w i x.data, be := partWord bw i x.be, eop := x.eop && lastBeat, sop := x.sop && (i == 0), emp := emp }
+
+def pRedFin (ratio w bw ek : Nat) (i : Nat) (x : Beat) : Bool := (i + 1 == ratio) || (pRedSlice ratio w bw ek i x).eop
+
+/-- `widthExtend` on concrete beats (`w`/`bw`/`ew` = input data / byte-enable / empty width) -/
+def pExtStart (ratio w ek : Nat) : Nat := emptyUnit ek w * (ratio - 1)
+def pExtMod (ratio w ek ew : Nat) : Nat := if ek = 0 then 1 else 2 ^ bitLen (pExtStart ratio w ek + (2 ^ ew - 1))
+def pExtMk (w bw : Nat) (slots : List (Nat × Nat)) (sop : Bool) (emp : Nat) (x : Beat) : Beat :=
+  { x with data := packWords w (slots.map Prod.fst), be := packWords bw (slots.map Prod.snd), sop := sop, emp := emp }
+
 /-- stage descriptions as printed by the harness -/
 inductive Desc
   | ds | dsb | rr | dec | stall
@@ -272,6 +354,8 @@ inductive Desc
   | fifo (depth lat : Nat) (ft : Bool)
   | ext (ratio w bw : Nat)   -- `w` / `bw` = input data / byte-enable width
   | red (ratio w bw : Nat)   -- `w` / `bw` = output data / byte-enable width
+  | pext (ratio w bw ek ew : Nat)  -- Packet.h widthExtend; input widths, empty flavour, input empty width
+  | pred (ratio w bw ek : Nat)     -- Packet.h widthReduce; output widths, empty flavour
   deriving Repr, BEq
 
 def Desc.stage : Desc → Stage Beat Beat
@@ -284,6 +368,8 @@ def Desc.stage : Desc → Stage Beat Beat
   | .fifo d l ft => Gatery.C16.fifo Beat.zero d l ft
   | .ext r w bw => extendWidth r (0, 0) extSlot (extMk w bw)
   | .red r w bw => reduceWidth r (redSlice r w bw)
+  | .pext r w bw ek ew => widthExtendP r (0, 0) extSlot Beat.eop Beat.sop Beat.emp (pExtStart r w ek) (emptyUnit ek w) (pExtMod r w ek ew) (pExtMk w bw)
+  | .pred r w bw ek => widthReduceP (pRedSlice r w bw ek) (pRedFin r w bw ek)
 
 def chainOf : List Desc → Chain Beat Beat
   | [] => .nil
